@@ -365,7 +365,8 @@ def c19_gen(r, tier):
             toks = k.split(".")
             yield E("condition", {".".join(["datum"] + toks[1:]): v}, "unknown-datum-kind")
             yield E("condition", {".".join(toks[:-1] + [toks[-1] + "_x"]): v}, "unknown-callable")
-            yield E("condition", {k: v, "value.truthy": None}, "several-keys")
+            if k != "value.truthy":
+                yield E("condition", {k: v, "value.truthy": None}, "several-keys")
             if len(toks) == 2:
                 yield E("condition", {".".join([toks[0], "sz", toks[1]]): v}, "unknown-pre-processor")
         ps = dict(wf["part"])
